@@ -18,6 +18,16 @@ CHi(n, inc) == [c |-> "UpperBound", n |-> n, inc |-> inc]
 CLenLo(k) == [c |-> "LenLower", k |-> k]
 CLenHi(k) == [c |-> "LenUpper", k |-> k]
 CPrefix(p) == [c |-> "PrefixFull", p |-> p]
+\* shorthands of the builder API, each documented as the composition of two primitive calls
+\* (CollectionLength = lower o upper bound; NumberRangeInclusive = inclusive lower o inclusive upper bound)
+\* and the safe prefix constructor (StringPrefix = StringPrefixFull of the safe part of the prefix)
+CLen(k) == [c |-> "LenExact", k |-> k]
+CRange(lo, hi) == [c |-> "RangeIncl", lo |-> lo, hi |-> hi]
+CPrefixSafe(p) == [c |-> "PrefixSafe", p |-> p]
+\* over the plain-letter alphabet of this module every letter may combine with a following mark, so the
+\* safe part of a prefix is the prefix without its last letter (ctystrings.SafeKnownPrefix; the Unicode-risk
+\* alphabet is the subject of SafePrefix.tla)
+SafePart(p) == IF p = <<>> THEN <<>> ELSE SubSeq(p, 1, Len(p) - 1)
 
 BoundNums == {Qn(-4), Qn(0), Qn(4), Qn(8)}
 PrefixMenu == {<<>>, <<"a">>, <<"a", "b">>, <<"b">>, <<"a", "b", "c">>}
@@ -25,16 +35,17 @@ CallsFor(t) ==
   {CNotNull, CNull} \cup
   CASE t.k = "number" -> {CLo(n, i) : n \in BoundNums, i \in BOOLEAN} \cup {CHi(n, i) : n \in BoundNums, i \in BOOLEAN}
                          \cup {CLo(NInf, TRUE), CHi(PInf, TRUE), CLo(PInf, TRUE), CHi(NInf, TRUE)}
-    [] t.k = "string" -> {CPrefix(p) : p \in PrefixMenu}
-    [] IsCollT(t) -> {CLenLo(k) : k \in 0..3} \cup {CLenHi(k) : k \in 0..3}
+                         \cup {CRange(lo, hi) : lo \in {Qn(0), Qn(4), NInf}, hi \in {Qn(0), Qn(4), PInf}}
+    [] t.k = "string" -> {CPrefix(p) : p \in PrefixMenu} \cup {CPrefixSafe(p) : p \in PrefixMenu}
+    [] IsCollT(t) -> {CLenLo(k) : k \in 0..3} \cup {CLenHi(k) : k \in 0..3} \cup {CLen(k) : k \in 0..3}
     [] OTHER -> {}
 
 \* a call whose kind does not apply to the type is API misuse (documented to panic)
 Applies(call, t) ==
   CASE call.c \in {"NotNull", "Null"} -> t.k # "dynamic"
-    [] call.c \in {"LowerBound", "UpperBound"} -> t.k = "number"
-    [] call.c \in {"LenLower", "LenUpper"} -> IsCollT(t)
-    [] call.c = "PrefixFull" -> t.k = "string"
+    [] call.c \in {"LowerBound", "UpperBound", "RangeIncl"} -> t.k = "number"
+    [] call.c \in {"LenLower", "LenUpper", "LenExact"} -> IsCollT(t)
+    [] call.c \in {"PrefixFull", "PrefixSafe"} -> t.k = "string"
 
 (***************************************************************************)
 (* Ranges: canonical refinement records (absent field = no constraint).    *)
@@ -52,6 +63,9 @@ Sat(call, c) ==
     [] call.c = "LenLower" -> call.k <= LenLoOf(c)
     [] call.c = "LenUpper" -> LenHiOf(c) <= call.k
     [] call.c = "PrefixFull" -> IsPrefix(call.p, StrOf(c))
+    [] call.c = "LenExact" -> call.k <= LenLoOf(c) /\ LenHiOf(c) <= call.k
+    [] call.c = "RangeIncl" -> NumLE(call.lo, c.v) /\ NumLE(c.v, call.hi)
+    [] call.c = "PrefixSafe" -> IsPrefix(SafePart(call.p), StrOf(c))
 
 InModel(t, r, c) == Admits(Unk(t, r), c)
 
@@ -78,14 +92,18 @@ Meet(r, call) ==
     [] call.c = "LenLower" -> MeetLenLo(r, call.k)
     [] call.c = "LenUpper" -> MeetLenHi(r, call.k)
     [] call.c = "PrefixFull" -> MeetPrefix(r, call.p)
+    [] call.c = "LenExact" -> MeetLenHi(MeetLenLo(r, call.k), call.k)
+    [] call.c = "RangeIncl" -> MeetHi(MeetLo(r, call.lo, TRUE), call.hi, TRUE)
+    [] call.c = "PrefixSafe" -> MeetPrefix(r, SafePart(call.p))
 
 \* the call contradicts what is already known about an UNKNOWN orig with range r
 ContraUnk(r, call) ==
   CASE call.c = "NotNull" -> r.null = "T"
     [] call.c = "Null" -> r.null = "F"
-    [] call.c \in {"LowerBound", "UpperBound"} -> EmptyNum(Meet(r, call))
-    [] call.c \in {"LenLower", "LenUpper"} -> EmptyLen(Meet(r, call))
+    [] call.c \in {"LowerBound", "UpperBound", "RangeIncl"} -> EmptyNum(Meet(r, call))
+    [] call.c \in {"LenLower", "LenUpper", "LenExact"} -> EmptyLen(Meet(r, call))
     [] call.c = "PrefixFull" -> ~Compatible(call.p, PrefixOf(r))
+    [] call.c = "PrefixSafe" -> ~Compatible(SafePart(call.p), PrefixOf(r))
 
 \* the call contradicts a KNOWN (or null) orig
 ContraKnown(orig, call) == ~Sat(call, orig)
